@@ -52,6 +52,7 @@ class Block:
         self.ret = None
         self.clauses = ""
         self.loops = {}
+        self.loopvars = {}   # k -> ghost iterator name of the k-th loop (a `for` loop)
         self.closures = {}   # k -> [ret decl, clause text]  (//@closure)
         self.hints = []
         self.first = ""
@@ -134,15 +135,19 @@ def parse_template(text):
             elif cmd == "spec":
                 mode = ("spec",)
             elif cmd == "loop":
-                mode = ("loop", int(arg))
-                cur.loops[int(arg)] = ""
+                # //@loop k [iter=<name>]: `iter=` names the ghost iterator of a `for` loop (`for x in <name>: expr`)
+                la = arg.split()
+                mode = ("loop", int(la[0]))
+                cur.loops[int(la[0])] = ""
+                if len(la) > 1 and la[1].startswith("iter="):
+                    cur.loopvars[int(la[0])] = la[1][5:]
             elif cmd == "closure":
                 # //@closure k <ret>: <Type>   contract of the k-th closure of the function (source order)
                 k, _, rdecl = arg.partition(" ")
                 mode = ("closure", int(k))
                 cur.closures[int(k)] = [rdecl.strip(), ""]
             elif cmd == "hint":
-                m = re.match(r'(before|after|closure)\s+"((?:[^"\\]|\\.)*)"\s*(?:#(\d+))?', arg)
+                m = re.match(r'(before|after)\s+"((?:[^"\\]|\\.)*)"\s*(?:#(\d+))?', arg)
                 if not m:
                     raise ValueError("bad hint directive: " + line)
                 anchor = m.group(2).replace('\\"', '"')
@@ -524,7 +529,7 @@ def generate(unit, probe=False, repo=None):
                                    "clause_hash": extract.sha(ce["clauses"])[:16]})
         has_req = bool(re.search(r"\brequires\b", b.clauses))
         opts = {
-            "ret": b.ret, "clauses": b.clauses.rstrip("\n"), "loops": {k: v.rstrip("\n") for k, v in b.loops.items()},
+            "ret": b.ret, "clauses": b.clauses.rstrip("\n"), "loops": {k: v.rstrip("\n") for k, v in b.loops.items()}, "loopvars": dict(b.loopvars),
             "closures": {k: tuple(v) for k, v in b.closures.items()},
             "hints": [tuple(h[:2]) + (h[2].rstrip("\n"), h[3]) for h in b.hints],
             "body_first": b.first.rstrip("\n"), "subst": b.subst,
